@@ -177,12 +177,67 @@ def strict_guard(ctx, rule='C16.O6'):
     return res
 
 
+
+def pagesize_fields(ctx):
+    """fields that hold a page size: every field named `pagesize`, plus (fixpoint) fields that are assigned a plain copy / cast of one"""
+    if hasattr(ctx, '_ps_fields'):
+        return ctx._ps_fields
+    F = ctx.facts
+    ps = set()
+    for a in F.doc['adts']:
+        for v in a['variants']:
+            for f in v['fields']:
+                if f['name'] == 'pagesize':
+                    ps.add((a['name'], f['name']))
+    PLAIN_CALLS = {'into', 'from', 'try_into', 'try_from', 'unwrap', 'expect', 'clone', 'deref', 'borrow', 'get', 'as_ref', 'unwrap_or', 'branch', 'from_residual'}
+
+    def plain_ps(du, operand):
+        _, at = du.slice_operand(operand)
+        if not any(a[0] == 'field' and a[1] and (last_seg(a[1]), a[2]) in ps for a in at):
+            return False
+        if any(a[0] == 'bin' for a in at):
+            return False
+        return all(last_seg(strip_generics(a[2])) in PLAIN_CALLS for a in at if a[0] == 'call')
+    changed = True
+    rounds = 0
+    while changed and rounds < 5:
+        changed = False
+        rounds += 1
+        for fn in F.fns:
+            du = None
+            for bb in fn.reachable_blocks():
+                for si, st in enumerate(fn.blocks[bb]['stmts']):
+                    if st['k'] != 'assign':
+                        continue
+                    rv = st['rv']
+                    if rv['k'] == 'agg' and rv.get('ak') == 'adt' and rv.get('fields'):
+                        for nme, o in zip(rv['fields'], rv['ops']):
+                            key = (last_seg(rv['adt']), nme)
+                            if key in ps or o['k'] == 'const':
+                                continue
+                            du = du or ctx.du(fn)
+                            if plain_ps(du, o):
+                                ps.add(key)
+                                changed = True
+                    fs = [e for e in st['p']['pr'] if e['k'] == 'field']
+                    if fs and fs[-1].get('adt') and rv['k'] in ('use', 'cast'):
+                        key = (last_seg(fs[-1]['adt']), fs[-1]['name'])
+                        if key in ps or rv['op']['k'] == 'const':
+                            continue
+                        du = du or ctx.du(fn)
+                        if plain_ps(du, rv['op']):
+                            ps.add(key)
+                            changed = True
+    ctx._ps_fields = ps
+    return ps
+
+
 def no_pow2_arith(ctx, rule='C16.no-pow2-arith'):
     """the builder accepts page sizes that are not powers of two, so no mask / shift arithmetic may be applied to a page size"""
     res = []
     F = ctx.facts
-    # unless every public store of the page size is guarded by is_power_of_two
-    pow2_only = False
+    psf = pagesize_fields(ctx)
+    ctx.stats['pagesize_fields'] = sorted('%s.%s' % k for k in psf)
     n = 0
     nbit = 0
     for fn in F.fns:
@@ -203,7 +258,7 @@ def no_pow2_arith(ctx, rule='C16.no-pow2-arith'):
                     ptrcheck = False
                     for o in (rv['a'], rv['b']):
                         _, at = du.slice_operand(o)
-                        fields |= {(last_seg(a[1]), a[2]) for a in at if a[0] == 'field' and a[2] == 'pagesize' and a[1]}
+                        fields |= {(last_seg(a[1]), a[2]) for a in at if a[0] == 'field' and a[1] and (last_seg(a[1]), a[2]) in psf}
                         # rustc's debug-build alignment checks mask a pointer address (ptr-to-int transmute): not page-size arithmetic
                         if any(a[0] == 'cast' and a[1] in ('Transmute', 'PointerExposeProvenance') for a in at):
                             ptrcheck = True
@@ -215,8 +270,36 @@ def no_pow2_arith(ctx, rule='C16.no-pow2-arith'):
                                        '%s applies `%s` to a value derived from the page size (%s) at %s: the builder accepts page sizes that are not powers of two (any multiple of 8 from 1024), '
                                        'for which mask / shift arithmetic gives wrong page counts or offsets' % (fn.qual, rv['op'], sorted('%s.%s' % f for f in fields), fn.loc(bb, si)),
                                        where=fn.loc(bb, si)))
+    # calls whose argument must be a power of two (alignments), or that only make sense for one
+    POW2_ARGS = {'from_size_align': [1], 'from_size_align_unchecked': [1], 'align_to': [1], 'align_offset': [1], 'next_multiple_of': [], 'trailing_zeros': [0],
+                 'ilog2': [0], 'leading_zeros': [0], 'is_aligned_to': [1]}
+    ncall = 0
+    for fn in F.fns:
+        du = None
+        for bb in sorted(fn.reachable_blocks()):
+            t = fn.term(bb)
+            c = callee_of(t) if t['k'] == 'call' else None
+            if not c or c['local']:
+                continue
+            name = last_seg(strip_generics(c['path']))
+            if name not in POW2_ARGS or not ('alloc::Layout' in c['path'] or 'std::ptr' in c['path'] or 'core::num' in c['path'] or name in ('trailing_zeros', 'ilog2', 'leading_zeros')):
+                continue
+            ncall += 1
+            du = du or ctx.du(fn)
+            for ai in POW2_ARGS[name]:
+                if ai >= len(t['args']):
+                    continue
+                _, at = du.slice_operand(t['args'][ai])
+                fields = {(last_seg(a[1]), a[2]) for a in at if a[0] == 'field' and a[1] and (last_seg(a[1]), a[2]) in psf}
+                if fields:
+                    n += 1
+                    res.append(bad(rule, '%s | %s of a page size' % (fn.qual, name),
+                                   '%s passes a value derived from the page size (%s) to `%s` at %s, which needs a power of two: the builder accepts page sizes that are not powers '
+                                   'of two, for which the call fails or gives a wrong result' % (fn.qual, sorted('%s.%s' % f for f in fields), strip_generics(c['path']), fn.loc(bb)),
+                                   where=fn.loc(bb)))
+    ctx.stats['pow2_calls_examined'] = ncall
     ctx.stats['bit_ops_examined'] = nbit
-    f = floor(rule, 'positive control: bit operations on integers anywhere in the crate', nbit, 1)
+    f = floor(rule, 'positive control: bit operations on integers anywhere in the crate', nbit, 1) or floor(rule, 'positive control: calls taking an alignment (Layout::from_size_align)', ncall, 1)
     if f:
         res.append(f)
     if n == 0:
@@ -350,6 +433,8 @@ def run(ctx, tier):
     results += remap_always(ctx)
     results += flags_flow(ctx)
     results += thresholds(ctx)
+    import c02
+    results += c02.reload_rule(ctx, rule='C16.reload')
     return dict(
         results=results, stats=dict(ctx.stats),
         explanation=(
@@ -357,5 +442,5 @@ def run(ctx, tier):
             '(counted), therefore every public store of a caller-supplied page size is dominated by a divisibility test against the alignment of Page whose failing edge does not return '
             '("every value the builder accepts must work or be refused cleanly"); (O6) the strict-mode check runs after all data writes, growth and remap and before the header write, '
             'only under the strict_mode flag; (grow) the growth decision compares the file length with num_pages*pagesize after the final high-water mark is known, the new size derives '
-            'from both, and the transaction\'s Pages are replaced from the new map behind the success edge; (no-pow2-arith) no mask / shift arithmetic is applied to a page size (the builder accepts non-powers of two).'),
+            'from both, and the transaction\'s Pages are replaced from the new map behind the success edge; (no-pow2-arith) no mask / shift arithmetic is applied to a page size and no page size is used as an alignment (the builder accepts non-powers of two); (reload) the persisted free list is loaded in full, not cut to a page-size dependent length.'),
         assumptions=['the OS page size used by the default options is a multiple of 8'])
